@@ -367,6 +367,45 @@ func c05Phase(phase int, hexLine string) (kind string, ops []string) {
 	}
 }
 
+// c05Order: the i-th sequence (length 1..4) of well-formed requests in arbitrary protocol order on connection 0 — every one
+// answered by the pool under its id, whether or not it was forwarded — next to a well-behaved connection 1.
+func c05Order(i int) []string {
+	alphabet := []string{"configure", "subscribe", "authorize", "submit", "subscribe2"}
+	l := 1
+	for size := len(alphabet); i >= size; size *= len(alphabet) {
+		i -= size
+		l++
+	}
+	ops := []string{"cfg notprop=0", "pool pa reach=1", "conn 0", "conn 1"}
+	id := 1
+	for k := 0; k < l; k++ {
+		switch alphabet[i%len(alphabet)] {
+		case "configure":
+			ops = append(ops, fmt.Sprintf("m 0 configure %d 1fffe000 2 -", id), fmt.Sprintf("p 0 cfgres %d 1fffe000", id))
+		case "subscribe":
+			ops = append(ops, fmt.Sprintf("m 0 subscribe %d", id), fmt.Sprintf("p 0 subres %d ffee 4", id))
+		case "subscribe2": // the reply comes only after the next request
+			ops = append(ops, fmt.Sprintf("m 0 subscribe %d", id))
+		case "authorize":
+			ops = append(ops, fmt.Sprintf("m 0 authorize %d acct.rig7", id), fmt.Sprintf("p 0 res %d ok", id))
+		case "submit":
+			ops = append(ops, "m 0 submit")
+		}
+		i /= len(alphabet)
+		id++
+	}
+	return append(ops, "p 0 subres 2 ffee 4", "m 1 subscribe 2", "p 1 subres 2 ffee 4", "m 1 authorize 3 acct.rig7", "p 1 res 3 ok")
+}
+
+func c05OrderCount() int {
+	n, size := 0, 5
+	for l := 1; l <= 4; l++ {
+		n += size
+		size *= 5
+	}
+	return n
+}
+
 func TestVerifC05Session(t *testing.T) {
 	tr := vh.OpenTranscript("c05s.impl.txt")
 	defer tr.Close()
@@ -409,5 +448,14 @@ func TestVerifC05Session(t *testing.T) {
 			tr.Case(n, fmt.Sprintf("%s phase=%d", kind, phase))
 			run(kind, ops)
 		}
+	}
+	// requests out of protocol order
+	for i := 0; i < c05OrderCount(); i++ {
+		n++
+		if n <= skip || i%stride != 0 {
+			continue
+		}
+		tr.Case(n, "hs phase=order")
+		run("hs", c05Order(i))
 	}
 }
